@@ -37,7 +37,7 @@ var (
 	u32s = []uint64{0, 1, 127, 128, 16383, 16384, 1<<32 - 1}
 	u64s = []uint64{0, 1, 127, 128, 16383, 16384, 1<<32 - 1, 1 << 63, 1<<64 - 1}
 	i64s = []int64{0, 1, -1, 63, 64, -64, -65, 1<<31 - 1, -1 << 31}
-	strs = []string{"", "a", "é", "é", strings.Repeat("x", 200), "zü世"}
+	strs = []string{"", "a", "é", "é", strings.Repeat("x", 200), "zü世", "q\u0300", "x\u0327\u0301z", "\u1100\u1161\u11a8", "\u2126"}
 	byts = [][]byte{nil, {0}, {0xff}, bytes.Repeat([]byte{0xab}, 32), bytes.Repeat([]byte{7}, 300)}
 )
 
